@@ -3,11 +3,31 @@
 (* file cannot express).                                                    *)
 EXTENDS Codec
 
-(* handles: 1 = leaf content, 2 contains 1, 3 contains 1 and 2             *)
+(* handles: 1 = leaf content, 2 contains 1, 3 contains 1 and 2; one type    *)
+(* (Interned<Dyn>), three different contents                                *)
 KidsI == <<<<>>, <<1>>, <<1, 2>>>>
+TypeI == <<"D", "D", "D">>
+HashI == <<"1", "2", "3">>
 PoolI == << <<1, 1>>, <<2, 1>>, <<1, 2>>, <<3, 2>>, <<2, 2, 1>> >>
 
 (* three values without interned handles: pure FIFO shapes                  *)
 KidsN == <<>>
+TypeN == <<>>
+HashN == <<>>
 PoolN == << <<>>, <<>>, <<>> >>
+
+(* CROSS-TYPE handles.  1, 2, 3: the SAME content hash "a" under three      *)
+(* different types (Interned<str>, Interned<String>, Interned<W>, W a       *)
+(* new-type of String: all three hash identically); 4: type of 1, another   *)
+(* content; 5: an Interned<Dyn> whose content holds 1 and 2.                *)
+KidsX == << <<>>, <<>>, <<>>, <<>>, <<1, 2>> >>
+TypeX == << "S", "T", "W", "S", "D" >>
+HashX == << "a", "a", "a", "b", "c" >>
+PoolX == << <<1, 2>>,            \* (Interned<str> a, Interned<String> a)
+            <<2, 1>>,            \* the other order
+            <<3, 2>>,            \* new-type first, then its field type
+            <<1, 3, 2, 1>>,      \* all three types, then a same-type repeat (a genuine reference)
+            <<1, 4, 2>>,         \* same type / other content in between
+            <<5>>,               \* both inside the content of one Interned<Dyn>
+            <<2, 5, 1>> >>       \* outside, inside, outside again
 =============================================================================
